@@ -4,12 +4,21 @@ from vlib.core import sx, q, parse_sx
 
 PROP = "C05"
 MODE = "session"
-RULE = ("random histories of 3-25 statements (define / mutable define / assign / indexed assign / op-assign / field assign / "
+RULE = ("(1) random histories of 3-25 statements (define / mutable define / assign / indexed assign / op-assign / field assign / "
         "tuple-element assign / tuple destructure) over 5 names and the value kinds scalar, matrix (row, column, 2-D, 1x1), "
         "record, tuple, set, table (f64), right-hand sides literals, bare variables and tuple/record literals with variable "
         "elements; about 40 % of the statements deliberately invalid (redefinition, undefined or immutable target, kind or "
         "form mismatch, index out of range, unknown field, failing destructure, over-long table column); plus a fixed list "
         "of hand-written histories (the witnesses of the findings, the mandatory errors, copy-assignment, double references). "
+        "(2) stream `kinds`: histories over 1-3 of the 16 element kinds (u8..u128, i8..i128, f32, f64, r64, c64, bool, string; "
+        "every kind leads 1/16 of the histories): definitions in every syntactic form (`x := 5<k>`, `~x := ..`, suffix `5u8`, "
+        "annotated `x<k> := 5`, `x<k2> := 5<k1>`, typed-element matrices, `m<[k]:r,c> := [..]`, `m<[k]> := [..]`, fractions, "
+        "complex literals, tuples and records of mixed kinds), whole / indexed / field / tuple-element assignment and the four "
+        "op-assignments with literals and variables of the same kind, of another kind, form or shape, integer operands large "
+        "enough to overflow the 8-bit kinds now and then, zero divisors (scalars and inside matrices), redefinitions, "
+        "undefined / immutable targets, ill-kinded annotations that must fail; no construct of the aliasing findings. "
+        "(3) stream `kinds-containers`: the same plus tables with typed columns (column assignment, row append) and typed sets, "
+        "without op-assignments.  The witnesses and the mandatory-error history are repeated for each of the 16 kinds. "
         "non-trivial = distinct history judged ok")
 ASSUMPTIONS = [
     "numbers are f64 values k/8 (|k| <= 512) combined by at most 25 exact operations (+, -, * by +-2 or 0.5, / by +-2^k), so "
@@ -18,6 +27,14 @@ ASSUMPTIONS = [
     "history's names and is removed from the observed symbol table",
     "error kinds/messages are not compared (one Err token); a panic, parse error, abort or hang of a step is a violation",
     "what an accepted assignment writes into its OWN target is not constrained here (C04), only that nothing else changes",
+    "values of the kinds other than f64 are compared by their printed payloads (integers, f32 / c64 bit patterns with -0 = +0, "
+    "numerator / denominator, 0/1, quoted strings); tables and sets with a non-f64 column / element by their whole canonical "
+    "form; every literal is a small value its syntax denotes exactly (no `-128<i8>`, no complex literal with a negative "
+    "real part, integer cells under an r64 table column: the parser / conversions treat those specially, not C05's business)",
+    "an ill-kinded annotation (`x<u8> := \"s\"`, `m<[u8]:1,3> := [1 2]`, ...) is encoded as a definition whose right-hand side "
+    "has no value: it must fail and define nothing",
+    "a known finding is reported as such only if one configuration of the heap model predicts every outcome and table up to "
+    "and including the LAST step that breaks the property (the steps after it satisfy the property by themselves)",
 ]
 TRIVIAL_TAGS = []
 
@@ -525,7 +542,7 @@ def kvalue(rng, k, big=False, nonzero=False):
     if k in ms.INT_KINDS:
         lo, hi = ms.kind_range(k)
         if big and rng.random() < 0.5:
-            v = rng.randint(max(lo, -130), min(hi, 260))
+            v = rng.randint(max(lo + 1, -130), min(hi, 260))     # (`-128<i8>` is -(128 saturated) = -127: not used)
         else:
             v = rng.randint(0 if (lo == 0 or rng.random() < 0.7) else -12, 12)
         if nonzero and v == 0:
